@@ -1,22 +1,101 @@
-import Secp.Proofs.AddSub
+import Secp.Proofs.ScalarEnc
+import Secp.Proofs.Fermat
 /-!
 # C06 — scalar arithmetic is exact arithmetic modulo the group order
-(first instalment: the limb-level contracts of the generated Fiat functions)
+
+Model of the code: `Hand.Scalar.{add,subtract,multiply,square,invert,set,setUInt64,pow}` and the constants, over
+the generated `FiatScalar.{add,sub,mul,square,toMontgomery,fromMontgomery}` and the generated 293-step chain
+`ScalarChain.invert`. `sOk s` = limbs below 2^64 and value below n (the Fiat pre/postcondition); `sVal s ∈ ZMod n` is
+the canonical value (`eval · R⁻¹`). Receiver/argument aliasing: the API passes `&s.S` as output and first input of
+the Fiat function; the translator refuses any read of an input after the first output write, so the pure-function
+reading below covers `s.Add(s)`, `s.Multiply(s)`, `s.Subtract(s)` (instantiate `t := s`).
 -/
 namespace C06
+open Hand.Scalar Spec
 
-theorem mul_correct (x y : L4) (hx : x.ok) (hy : y.ok) (hY : y.eval < Nnat) :
-    (FiatScalar.mul x y).ok ∧ (FiatScalar.mul x y).eval < Nnat ∧
-    ((FiatScalar.mul x y).eval * W^4) % Nnat = (x.eval * y.eval) % Nnat := scalarMul_correct x y hx hy hY
+abbrev Zn := ZMod N
 
-theorem square_correct (x : L4) (hx : x.ok) (hX : x.eval < Nnat) :
-    (FiatScalar.square x).ok ∧ (FiatScalar.square x).eval < Nnat ∧
-    ((FiatScalar.square x).eval * W^4) % Nnat = (x.eval * x.eval) % Nnat := scalarSquare_correct x hx hX
+/-- **Add / Subtract / Multiply / Square**: exact in `Z/nZ`, result canonical -/
+theorem add_correct (s t : L4) (hs : sOk s) (ht : sOk t) :
+    sOk (add s (some t)) ∧ sVal (add s (some t)) = sVal s + sVal t := s_add hs ht
+theorem subtract_correct (s t : L4) (hs : sOk s) (ht : sOk t) :
+    sOk (subtract s (some t)) ∧ sVal (subtract s (some t)) = sVal s - sVal t := s_sub hs ht
+theorem multiply_correct (s t : L4) (hs : sOk s) (ht : sOk t) :
+    sOk (multiply s (some t)) ∧ sVal (multiply s (some t)) = sVal s * sVal t := s_mul hs ht
+theorem square_correct (s : L4) (hs : sOk s) :
+    sOk (square s) ∧ sVal (square s) = sVal s * sVal s := s_square hs
 
-theorem add_correct (x y : L4) (hx : x.ok) (hy : y.ok) (hX : x.eval < Nnat) (hY : y.eval < Nnat) :
-    (FiatScalar.add x y).ok ∧ (FiatScalar.add x y).eval = (x.eval + y.eval) % Nnat := scalarAdd_correct x y hx hy hX hY
+/-- nil operands: `Add`/`Subtract` are no-ops, `Multiply` and `Set` give 0 -/
+theorem add_nil (s : L4) : add s none = s := rfl
+theorem subtract_nil (s : L4) : subtract s none = s := rfl
+theorem multiply_nil (s : L4) : multiply s none = zero ∧ sVal zero = 0 := ⟨rfl, sVal_zero⟩
+theorem set_nil (s : L4) : set s none = zero := rfl
 
-theorem sub_correct (x y : L4) (hx : x.ok) (hy : y.ok) (hX : x.eval < Nnat) (hY : y.eval < Nnat) :
-    (FiatScalar.sub x y).ok ∧ (FiatScalar.sub x y).eval = (x.eval + Nnat - y.eval) % Nnat := scalarSub_correct x y hx hy hX hY
+/-- **Invert**: `s⁻¹` (so `s · s⁻¹ = 1` for every `s ≠ 0`), and `0 ↦ 0`; result canonical -/
+theorem invert_correct (s : L4) (hs : sOk s) : sOk (invert s) ∧ sVal (invert s) = (sVal s)⁻¹ := by
+  obtain ⟨ok, v⟩ := scalarInvert_pow scalarLawful s hs
+  exact ⟨ok, by rw [← zmod_pow_sub_two N (by decide) (sVal s)]; exact v⟩
+
+theorem invert_mul_cancel (s : L4) (hs : sOk s) (h : sVal s ≠ 0) : sVal s * sVal (invert s) = 1 := by
+  rw [(invert_correct s hs).2]; exact mul_inv_cancel₀ h
+theorem invert_zero : sVal (invert zero) = 0 := by
+  rw [(invert_correct zero sZero_ok).2]
+  have : sVal zero = 0 := sVal_zero
+  rw [this, inv_zero]
+
+/-- **SetUInt64**: the integer `i`, for every 64-bit `i` -/
+theorem setUInt64_correct (i : Nat) (hi : i < W) : sOk (setUInt64 i) ∧ sVal (setUInt64 i) = (i : Zn) := by
+  have hx : (⟨i, 0, 0, 0⟩ : L4).ok := ⟨hi, W_pos, W_pos, W_pos⟩
+  obtain ⟨ok, v⟩ := s_toMont hx
+  refine ⟨ok, ?_⟩
+  show sVal (FiatScalar.toMontgomery ⟨i, 0, 0, 0⟩) = _
+  rw [v]
+  simp [L4.eval]
+
+/-- **Zero, One, MinusOne** -/
+theorem zero_correct : sOk zero ∧ sVal zero = 0 := ⟨sZero_ok, sVal_zero⟩
+theorem one_correct : sOk one ∧ sVal one = 1 := ⟨sOne_ok, sVal_one⟩
+theorem minusOne_correct : sOk minusOne ∧ sVal minusOne = -1 := by
+  refine ⟨⟨by decide, by decide⟩, ?_⟩
+  have h := sVal_of_mont minusOne (N - 1) (by decide)
+  rw [h, Nat.cast_sub (by decide), ZMod.natCast_self]
+  simp
+
+/-- **Pow** (`math/big` is modelled as exact modular powering, see the trusted base): `t = nil` or `t = 0` give 1,
+`t = 1` gives `s`; otherwise the result is the decoding of `(value of s)^(value of t) mod n`, i.e. `s^t`. -/
+theorem pow_nil (s : L4) : pow s none = one := rfl
+theorem pow_zero (s t : L4) (ht : sOk t) (h0 : sVal t = 0) : pow s (some t) = one := by
+  unfold pow
+  simp only
+  rw [if_pos ((sc_isZero_iff t ht).mpr h0)]
+theorem pow_general (s t : L4) (hs : sOk s) (ht : sOk t) (h0 : sVal t ≠ 0) (h1 : sVal t ≠ 1) :
+    sOk (pow s (some t)) ∧ sVal (pow s (some t)) = sVal s ^ (sVal t).val := by
+  have hz : isZero t = false := by
+    cases h : isZero t
+    · rfl
+    · exact absurd ((sc_isZero_iff t ht).mp h) h0
+  have ho : isOne t = false := by
+    cases h : isOne t
+    · rfl
+    · exact absurd ((sc_isOne_iff t ht).mp h) h1
+  unfold pow
+  simp only [hz, ho, Bool.false_eq_true, if_false]
+  rw [sc_encode s hs, sc_encode t ht]
+  have hvs : os2ip (i2osp (sVal s).val 32) = (sVal s).val := by
+    rw [os2ip_i2osp]; exact Nat.mod_eq_of_lt (Nat.lt_trans (sVal s).val_lt (by decide))
+  have hvt : os2ip (i2osp (sVal t).val 32) = (sVal t).val := by
+    rw [os2ip_i2osp]; exact Nat.mod_eq_of_lt (Nat.lt_trans (sVal t).val_lt (by decide))
+  rw [hvs, hvt, powMod_eq _ _ _ (by decide : 1 < N)]
+  set r := (sVal s).val ^ (sVal t).val % N with hr
+  have hrlt : r < N := Nat.mod_lt _ (by decide)
+  have hb : IsBytes (i2osp r 32) := i2osp_isBytes _ _
+  have hv : os2ip (i2osp r 32) = r := by
+    rw [os2ip_i2osp]; exact Nat.mod_eq_of_lt (Nat.lt_trans hrlt (by decide))
+  obtain ⟨_, _, h3, _⟩ := sc_decode s (i2osp r 32) hb
+  obtain ⟨_, ok, v⟩ := h3 (i2osp_length _ _) (by rw [hv]; exact hrlt)
+  refine ⟨ok, ?_⟩
+  rw [v, hv, hr, ZMod.natCast_mod, Nat.cast_pow, ZMod.natCast_zmod_val]
+
+example : sOk minusOne ∧ sOk one := ⟨minusOne_correct.1, sOne_ok⟩
 
 end C06
